@@ -151,14 +151,30 @@ pub fn create_dir_all<P: AsRef<Path>>(path: P) -> Result<()> {
 
         // Create from root down
         for dir in to_create.into_iter().rev() {
-            // Skip if it already exists (as file or dir)
-            if ctx.fs.dir_exists(&dir) || ctx.fs.file_exists(&dir) {
+            // Skip if it already exists as a directory
+            if ctx.fs.dir_exists(&dir) {
                 continue;
+            }
+            // A regular file in the way is an error (EEXIST for the final
+            // component, ENOTDIR for an intermediate one), as with std.
+            if ctx.fs.file_exists(&dir) {
+                return Err(not_a_dir_or_exists(&dir, &path));
             }
             ctx.fs.mkdir(&dir, ctx.now).map_err(Error::other)?;
         }
         Ok(())
     })
+}
+
+/// Error for a regular file found where `create_dir_all(target)` needs a
+/// directory: `AlreadyExists` if it is the target itself, `NotADirectory` if
+/// it is one of its ancestors.
+fn not_a_dir_or_exists(found: &Path, target: &Path) -> Error {
+    if found == target {
+        Error::new(ErrorKind::AlreadyExists, "File exists")
+    } else {
+        Error::new(ErrorKind::NotADirectory, "Not a directory")
+    }
 }
 
 /// Removes an empty directory.
@@ -241,6 +257,11 @@ pub fn sync_dir<P: AsRef<Path>>(path: P) -> Result<()> {
 pub fn remove_file<P: AsRef<Path>>(path: P) -> Result<()> {
     let path = path.as_ref().to_path_buf();
     FsContext::current(|ctx| {
+        // unlink(2) on a directory fails with EISDIR, it does not report
+        // the path as missing
+        if ctx.fs.dir_exists(&path) {
+            return Err(Error::new(ErrorKind::IsADirectory, "Is a directory"));
+        }
         ctx.fs
             .unlink(&path)
             .map_err(|e| Error::new(ErrorKind::NotFound, e))
@@ -368,6 +389,9 @@ pub fn read_dir<P: AsRef<Path>>(path: P) -> Result<ReadDir> {
     let path = path.as_ref().to_path_buf();
     FsContext::current(|ctx| {
         if !ctx.fs.dir_exists(&path) {
+            if ctx.fs.file_exists(&path) {
+                return Err(Error::new(ErrorKind::NotADirectory, "Not a directory"));
+            }
             return Err(Error::new(ErrorKind::NotFound, "directory not found"));
         }
 
@@ -1277,6 +1301,16 @@ impl OpenOptions {
 
             let file_exists = ctx.fs.file_exists(&resolved_path);
 
+            // A directory cannot be opened as a regular file: EEXIST for
+            // O_CREAT|O_EXCL, EISDIR otherwise. Without this check a create
+            // would put a file on top of the directory.
+            if !file_exists && ctx.fs.dir_exists(&resolved_path) {
+                if self.create_new {
+                    return Err(Error::new(ErrorKind::AlreadyExists, "file already exists"));
+                }
+                return Err(Error::new(ErrorKind::IsADirectory, "Is a directory"));
+            }
+
             // Handle create_new: fail if file exists
             if self.create_new && file_exists {
                 return Err(Error::new(ErrorKind::AlreadyExists, "file already exists"));
@@ -1581,8 +1615,11 @@ fn create_dir_all_with_mode<P: AsRef<Path>>(path: P, mode: u32) -> Result<()> {
 
         // Create from root down
         for dir in to_create.into_iter().rev() {
-            if ctx.fs.dir_exists(&dir) || ctx.fs.file_exists(&dir) {
+            if ctx.fs.dir_exists(&dir) {
                 continue;
+            }
+            if ctx.fs.file_exists(&dir) {
+                return Err(not_a_dir_or_exists(&dir, &path));
             }
             ctx.fs
                 .mkdir_with_mode(&dir, ctx.now, mode)
@@ -1735,6 +1772,9 @@ pub fn remove_dir_all<P: AsRef<Path>>(path: P) -> Result<()> {
     let path = path.as_ref().to_path_buf();
     FsContext::current(|ctx| {
         if !ctx.fs.dir_exists(&path) {
+            if ctx.fs.file_exists(&path) {
+                return Err(Error::new(ErrorKind::NotADirectory, "Not a directory"));
+            }
             return Err(Error::new(ErrorKind::NotFound, "directory not found"));
         }
 
